@@ -44,6 +44,8 @@ where
         };
 
         let to = min(to, input.len());
+        // A null bitmap is only as long as its last set bit requires and may end before `from`
+        let from = min(from, to);
         let result = Box::new(&input[from..to]);
         scratchpad.set_any(self.output.any(), result);
         self.current_index += self.batch_size;
